@@ -4,6 +4,7 @@ import MW.Chain.Dispatch
 import MW.Staking.Effects
 import MW.Inv.WorldFlag
 import MW.Inv.Demo
+import MW.Staking.Interface
 /-!
 # C10 — Circuit breaker halts all value-moving user operations
 -/
@@ -218,5 +219,14 @@ open MW.Chain.Demo
             .exec demoAdmin [] (.updateConfig none none none none (some 100)) {} (some 0)])).1.c.config
           (c.stopped, c.batchPeriod)) == some (true, 100)
 end Demo
+
+/-- the value-moving operations are six of the sixteen messages the source declares (table regenerated from /repo on
+every run); every other message is classified by `valueMoving` as not value-moving, and a message added to the source
+breaks `MW.Interface.staking_execute_eq` -/
+theorem value_moving_are_source_messages :
+    (MW.Interface.execSamples.filter valueMoving).map MW.Interface.execTag
+      = ["liquid_stake", "liquid_unstake", "submit_batch", "withdraw", "receive_rewards", "receive_unstaked_tokens"]
+    ∧ MW.Interface.names MW.Generated.Interface.staking_execute = MW.Interface.execSamples.map MW.Interface.execTag :=
+  ⟨by decide +kernel, MW.Interface.staking_execute_covered.1⟩
 
 end MW.Props.C10
